@@ -14,7 +14,8 @@ FAMILY = [
     ("(e/tau)*t*exp(-t/tau)", 2, "q"), ("exp(-t) - exp(-3*t)", 2, "q"), ("t*exp(-2*t)", 2, "q"), ("exp(-t/tau) - exp(-t/tau_s)", 2, "q"),
     ("sin(w*t)", 2, "q"), ("exp(-t)*sin(2*t)", 2, "q"), ("cos(3*t) + sin(3*t)", 2, "q"), ("3*exp(-t) + exp(-2*t)", 2, "q"),
     ("t**2*exp(-t)", 3, "q"), ("exp(-t) + t*exp(-2*t)", 3, "q"), ("1 + t + t**2", 3, "q"), ("exp(-t) + exp(-2*t) + exp(-3*t)", 3, "t"),
-    ("t**3*exp(-t)", 4, "t"), ("t*sin(t)", 4, "t"), ("sin(t) + cos(2*t)", 4, "t"), ("t**3", 4, "t"),
+    ("t**3*exp(-t)", 4, "q"), ("t*sin(t)", 4, "t"), ("sin(t) + cos(2*t)", 4, "t"), ("t**3", 4, "q"), ("(1-exp(-5*t))**3*exp(-t)", 4, "q"),
+    ("t**3*exp(-t/tau)", 4, "t"), ("sin(t)**3", 4, "t"), ("t**3/(1 + t)", None, "q"), ("t**4*exp(-t)", None, "t"),
     ("0*t", None, "q"), ("t**4", None, "t"), ("exp(-t**2)", None, "q"), ("1/(1 + t)", None, "q"), ("tanh(t)", None, "t"), ("log(1 + t)", None, "t"),
     ("t**2*sin(t)", None, "t"),
 ]
